@@ -5,7 +5,20 @@ import copy
 
 import numpy as np
 
-UNIVERSE = ['ra', 'dec', 'time', 'run', 'azi', 'zen', 'x', 'y']     # field name <-> its index in the model
+# field name <-> its index in the model.  Several names are substrings of one another (dec/sin_dec, ra/true_ra, x/xy) and
+# of realistic skyllh fields: a method that treats a name argument as a string instead of a name must show.
+UNIVERSE = ['ra', 'dec', 'time', 'run', 'sin_dec', 'true_ra', 'x', 'xy']
+
+
+def names_arg(idxs, form):
+    """a field-name argument in one of the documented forms: a sequence of names (list / tuple) or, for a single name,
+    the plain str (documented for keep_fields of tidy_up / copy / the constructor: a str means that one field)"""
+    names = [UNIVERSE[n] for n in idxs]
+    if form == 'str' and len(names) == 1:
+        return names[0]
+    if form == 'tuple':
+        return tuple(names)
+    return names
 NP_DT = {'b': np.dtype(np.bool_), 'i16': np.dtype(np.int16), 'i64': np.dtype(np.int64),
          'f32': np.dtype(np.float32), 'f64': np.dtype(np.float64)}
 DT_NAME = {v: k for k, v in NP_DT.items()}
@@ -101,7 +114,7 @@ def impl_apply(conts, op, held=None):
         elif k == 'rename':
             a.rename_fields({UNIVERSE[o]: UNIVERSE[n] for o, n in op['convs']}, must_exist=bool(op['must']))
         elif k == 'tidyUp':
-            a.tidy_up([UNIVERSE[n] for n in op['keep']])
+            a.tidy_up(names_arg(op['keep'], op.get('form')))
         elif k == 'getSel':
             r = a[mksel(op['sel'])] if op.get('via_getitem') else a.get_selection(mksel(op['sel']))
             conts.append(r)
@@ -116,13 +129,15 @@ def impl_apply(conts, op, held=None):
             return ('ok', ['idxs', ivals(r)])
         elif k == 'copy':
             keep = op.get('keep')
-            conts.append(a.copy(keep_fields=None if keep is None else [UNIVERSE[n] for n in keep]))
+            kf = None if keep is None else names_arg(keep, op.get('form'))
+            # copy(keep_fields) is the constructor on a DataFieldRecordArray: both public routes
+            conts.append(DFRA()(a, keep_fields=kf) if op.get('via_ctor') else a.copy(keep_fields=kf))
             return ('ok', ['cont', len(conts) - 1])
         elif k == 'setDtype':
             a.set_field_dtype(UNIVERSE[op['n']], NP_DT[op['dt']])
         elif k == 'convert':
             a.convert_dtypes({NP_DT[o]: NP_DT[n] for o, n in op['convs']},
-                             except_fields=[UNIVERSE[n] for n in op['exc']])
+                             except_fields=names_arg(op['exc'], 'tuple' if op.get('form') == 'tuple' else 'list'))
         elif k == 'indices':
             return ('ok', ['idxs', ivals(a.indices)])
         else:
